@@ -4,10 +4,13 @@
   "Never appears" is stated as non-interference: what the configuration dump (start-up log line
   and `/configz`) shows of a secret-bearing flag is a function of the non-secret parts alone, and
   that function keeps user names, hosts and ports.  The same for the upstream proxy URL of the
-  "using upstream proxy" line.  The two error texts of a failing start-up that render a flag value
-  (`invalid argument %q …`, `append certificate %q`) do depend on the secret in the unchanged tree
-  (F43, F44): the full-strength statements are kept as `def … : Prop`, refuted by a kernel-checked
-  witness, and proved under the hypothesis that excludes the defect class.  The table flag ↦ redactor is re-extracted from
+  "using upstream proxy" line, for the debug record "loading TLS certificate" (cert=/key= through
+  `redactDataURI`; F31, repaired by 6ee5ae9) and for the error of a `--cacert-file` entry without
+  certificate (`append certificate %q` of the redacted entry; F44, repaired by d35211c): these hold
+  at full strength, for every `data:` payload.  The text about a flag value that its parser rejects
+  (`invalid argument %q …`) does depend on the secret in the unchanged tree (F43): the full-strength
+  statement is kept as `def … : Prop`, refuted by a kernel-checked witness, and proved under the
+  hypothesis that excludes the defect class.  The table flag ↦ redactor is re-extracted from
   the sources on every run (`Model/C19FlagTable.lean`, generated) and `c19_secret_flags_redacted`
   re-checks it.
 -/
@@ -133,29 +136,71 @@ theorem c19_flag_error_partial (p : ConfigPub) (s : Secrets) (hp : p.ok) (hs : s
     flagErrors (settings ⟨p, s⟩) = [] :=
   flagErrors_admissible p s hp hs
 
-/-- FULL-STRENGTH STATEMENT (false in the unchanged tree, F44): the error of a start-up whose
-    `--cacert-file` value holds no PEM certificate does not depend on the payload of a `data:` value. -/
-def c19_cacert_error_full_statement : Prop :=
-  ∀ (f : FilePub) (payload₁ payload₂ : Bytes),
-    caCertErrorText (f.raw payload₁) = caCertErrorText (f.raw payload₂)
+/-! ### the error of a `--cacert-file` entry that holds no certificate (F44, repaired by d35211c) -/
 
-theorem c19_cacert_error_witness : ¬ c19_cacert_error_full_statement := by
-  intro h
-  have h' := h .data (ascii "QUJD") (ascii "REVG")
-  revert h'
+/-- FULL STRENGTH (the former `c19_cacert_error_full_statement`, no hypothesis): the error of a
+    start-up whose `--cacert-file` value holds no PEM certificate — the `error` of the "fatal error
+    exiting" record and the content of the termination log — does not depend on the payload of a
+    `data:` value. -/
+theorem c19_cacert_error (f : FilePub) (payload₁ payload₂ : Bytes) :
+    caCertErrorText (f.raw payload₁) = caCertErrorText (f.raw payload₂) :=
+  caCertErrorText_indep f payload₁ payload₂
+
+/-- the text is a function of the public part: the value as it may be shown, quoted -/
+theorem c19_cacert_error_public (f : FilePub) (payload : Bytes) (h : f.ok) :
+    caCertErrorText (f.raw payload) = ascii "load CAs: append certificate " ++ quoteAscii f.shown := by
+  simp only [caCertErrorText, redactDataURI_raw f payload h]
+
+/-- for an inline value it is one fixed text, whatever the payload -/
+theorem c19_cacert_error_data (payload : Bytes) :
+    caCertErrorText (FilePub.data.raw payload) =
+      ascii "load CAs: append certificate \"data:xxxxx\"" := by
+  rw [c19_cacert_error_public .data payload trivial]
   decide
 
-/-- PARTIAL: for a value that names a file the text shows the path only -/
-theorem c19_cacert_error_partial (path payload₁ payload₂ : Bytes) :
-    caCertErrorText ((FilePub.path path).raw payload₁) = caCertErrorText ((FilePub.path path).raw payload₂) := rfl
+/-- a value that names a file stays visible: the path is printed (between quotes) -/
+theorem c19_cacert_error_keeps_path (path payload : Bytes) (h : (FilePub.path path).ok)
+    (h1 : (34 : UInt8) ∉ path) (h2 : (92 : UInt8) ∉ path) :
+    path <:+: caCertErrorText ((FilePub.path path).raw payload) := by
+  rw [c19_cacert_error_public (.path path) payload h]
+  show path <:+: ascii "load CAs: append certificate " ++ quoteAscii path
+  rw [quoteAscii_plain path h1 h2]
+  exact ⟨ascii "load CAs: append certificate " ++ [34], [34], by simp⟩
 
-/-- what the repair amounts to: through the flag's redactor the text is a function of the public part -/
-theorem c19_cacert_error_redacted (f : FilePub) (payload₁ payload₂ : Bytes) (h : f.ok) :
-    caCertErrorText (redactBase64 (f.raw payload₁)) = caCertErrorText (redactBase64 (f.raw payload₂)) := by
-  have e₁ := describe_file f payload₁ h
-  have e₂ := describe_file f payload₂ h
-  simp only [describeValue, Option.some.injEq] at e₁ e₂
-  rw [e₁, e₂]
+/-! ### the debug record "loading TLS certificate" (F31, repaired by 6ee5ae9) -/
+
+/-- an inline `data:` value is printed as `data:xxxxx` whatever the payload is … -/
+theorem c19_redact_data_uri_data (payload : Bytes) :
+    redactDataURI (FilePub.data.raw payload) = ascii "data:xxxxx" :=
+  redactDataURI_data payload
+
+/-- … and a path as itself -/
+theorem c19_redact_data_uri_path (path payload : Bytes) (h : (FilePub.path path).ok) :
+    redactDataURI ((FilePub.path path).raw payload) = path :=
+  redactDataURI_path path h
+
+/-- non-interference, no hypothesis: two configurations that differ only in their secrets write the
+    same record (the same cert= and key= attributes, or both none when neither flag is given). -/
+theorem c19_tls_load_noninterference (p : ConfigPub) (s₁ s₂ : Secrets) :
+    tlsLoadLine ⟨p, s₁⟩ = tlsLoadLine ⟨p, s₂⟩ :=
+  tlsLoadLine_indep p s₁ s₂
+
+/-- the record is the public rendering: a path as given, `data:xxxxx` for an inline value -/
+theorem c19_tls_load_public (p : ConfigPub) (s : Secrets) (hp : p.ok) :
+    tlsLoadLine ⟨p, s⟩ = tlsLoadShown p :=
+  tlsLoadLine_eq_shown p s hp.2.2.2.2.1 hp.2.2.2.2.2.1
+
+/-- corollary: a secret that is a substring of neither public attribute is in neither attribute of the record. -/
+theorem c19_tls_load_secret_absent (p : ConfigPub) (s : Secrets) (secret : Bytes) (a : TLSLoadAttrs)
+    (hp : p.ok) (ha : tlsLoadLine ⟨p, s⟩ = some a)
+    (hc : ¬ secret <:+: optFileShown p.tlsCert) (hk : ¬ secret <:+: optFileShown p.tlsKey) :
+    ¬ secret <:+: a.cert ∧ ¬ secret <:+: a.key := by
+  rw [c19_tls_load_public p s hp] at ha
+  unfold tlsLoadShown at ha
+  split at ha
+  · cases ha
+  · cases ha
+    exact ⟨hc, hk⟩
 
 /-! ### the non-secret parts stay visible -/
 
@@ -280,8 +325,27 @@ example : invalidArgText .file "basic-auth" false [ascii ":pw"] =
 example : flagErrors [⟨"proxy", .proxyURL, false, [ascii "http://u:pw@127.0.0.1:99999"]⟩] =
     [invalidArgText .flag "proxy" false [ascii "http://u:pw@127.0.0.1:99999"]] := by decide +kernel
 example : flagErrors [⟨"proxy", .proxyURL, false, [ascii "http://u:pw@127.0.0.1:3128"]⟩] = [] := by decide +kernel
-/-- the CA certificate error (F44) -/
-example : caCertErrorText (ascii "data:QUJD") = ascii "load CAs: append certificate \"data:QUJD\"" := by decide +kernel
+/-- the CA certificate error (F44 repaired): the former witness payloads now give one text; a path stays -/
+example : caCertErrorText (ascii "data:QUJD") = ascii "load CAs: append certificate \"data:xxxxx\"" := by decide +kernel
+example : caCertErrorText (FilePub.data.raw (ascii "QUJD")) = caCertErrorText (FilePub.data.raw (ascii "REVG")) := by
+  decide +kernel
+example : caCertErrorText (ascii "/etc/ssl/ca.pem") = ascii "load CAs: append certificate \"/etc/ssl/ca.pem\"" := by
+  decide +kernel
+example : (FilePub.path (ascii "/etc/ssl/ca.pem")).ok := by
+  show dataPrefix.isPrefixOf (ascii "/etc/ssl/ca.pem") = false
+  decide
+/-- the "loading TLS certificate" record (F31 repaired): of the example configuration, with a path for the
+    certificate and an inline key; it is written, and it is the same for two secret assignments -/
+example : tlsLoadLine ⟨exPub, exSec [65, 49]⟩ = some ⟨ascii "/etc/cert.pem", ascii "data:xxxxx"⟩ := by decide +kernel
+example : tlsLoadLine ⟨exPub, exSec [65, 49]⟩ = tlsLoadLine ⟨exPub, exSec [66, 50, 50]⟩ := by decide +kernel
+example : tlsLoadAttrs (ascii "data:base64,QUJD") (ascii "data:REVG") = some ⟨ascii "data:xxxxx", ascii "data:xxxxx"⟩ := by
+  decide +kernel
+/-- neither flag: no such record; only the key given: the record has an empty cert -/
+example : tlsLoadAttrs [] [] = none := by decide +kernel
+example : tlsLoadAttrs [] (ascii "data:REVG") = some ⟨[], ascii "data:xxxxx"⟩ := by decide +kernel
+/-- `redactDataURI` looks at the prefix only: `data` without colon, or `data:` further inside, is a path -/
+example : redactDataURI (ascii "database/key.pem") = ascii "database/key.pem" := by decide +kernel
+example : redactDataURI (ascii "./data:QUJD") = ascii "./data:QUJD" := by decide +kernel
 /-- a flag without redactor is noticed: `pac` is declared with `NewValue` -/
 example : declaredWithRedactor flagTable "pac" = false := by decide +kernel
 
